@@ -131,7 +131,9 @@ def memoize_dependency():
     count = [0]
 
     def _div(num, den, min_prec):
-        d = abs(den) // gcd(num, den) if num else 1
+        if den == 0 or num == 0:
+            return orig_div(num, den, min_prec)
+        d = abs(den) // gcd(num, den)
         while d % 2 == 0:
             d //= 2
         while d % 5 == 0:
